@@ -3,6 +3,8 @@ package dsim
 import (
 	"fmt"
 	"net"
+
+	"github.com/fiorix/go-diameter/v4/diam/dict"
 	"os"
 	"regexp"
 	"sort"
@@ -82,6 +84,9 @@ func loadAppTable() (map[appKey]bool, error) {
 				tab[appKey{uint32(id), a[2]}] = true
 			}
 		}
+		// the harness's own extra dictionary (see init below)
+		tab[appKey{9001, "auth"}] = true
+		tab[appKey{9001, "acct"}] = true
 		if len(tab) < 3 {
 			appTableErr = fmt.Errorf("application table: only %d entries parsed from default.go", len(tab))
 			return
@@ -89,6 +94,19 @@ func loadAppTable() (map[appKey]bool, error) {
 		appTable = tab
 	})
 	return appTable, appTableErr
+}
+
+// A rare but legal configuration: one application id declared with both types.
+const extraDictXML = `<?xml version="1.0" encoding="UTF-8"?>
+<diameter>
+  <application id="9001" type="auth" name="Sim Dual Auth"></application>
+  <application id="9001" type="acct" name="Sim Dual Acct"></application>
+</diameter>`
+
+func init() {
+	if err := dict.Default.Load(strings.NewReader(extraDictXML)); err != nil {
+		panic("extra dictionary: " + err.Error())
+	}
 }
 
 func refSupports(id uint32, typ string) bool {
@@ -133,6 +151,27 @@ func (s cerSpec) sharedIDs() []uint32 {
 		out = append(out, id)
 	}
 	sort.Slice(out, func(i, j int) bool { return out[i] < out[j] })
+	return out
+}
+
+// sharedApps is the typed version of sharedIDs: (id, type) pairs the CER names and the dictionary supports.
+func (s cerSpec) sharedApps() []appKey {
+	set := map[appKey]bool{}
+	for _, en := range s.entries {
+		if en.id != 0xffffffff && refSupports(en.id, en.typ()) {
+			set[appKey{en.id, en.typ()}] = true
+		}
+	}
+	var out []appKey
+	for k := range set {
+		out = append(out, k)
+	}
+	sort.Slice(out, func(i, j int) bool {
+		if out[i].id != out[j].id {
+			return out[i].id < out[j].id
+		}
+		return out[i].typ < out[j].typ
+	})
 	return out
 }
 
@@ -216,8 +255,8 @@ func (s cerSpec) msg(host, realm string) RefMsg {
 
 // id classes for generated entries
 var (
-	idsAuthOK  = []uint32{4, 1, 16777251, 16777238}
-	idsAcctOK  = []uint32{3}
+	idsAuthOK  = []uint32{4, 1, 16777251, 9001}
+	idsAcctOK  = []uint32{3, 9001}
 	idsUnknown = []uint32{999, 16777000, 77}
 )
 
